@@ -568,6 +568,17 @@ pub fn named_variants() -> Vec<Term> {
       })));
     }
   }
+  // a named chunk of several characters whose recorded content equals the generated text
+  // (a cut inside it advances the original column; the name must survive)
+  {
+    let m = MapSpec::new(
+      vec![Seg { gl: 1, gc: 0, orig: Some((0, 1, 0, Some(1))) }, Seg { gl: 1, gc: 3, orig: Some((0, 1, 3, None)) }],
+      &["w0"],
+      Some(&["abcd\n"]),
+      &["n0", "n1"],
+    );
+    v.push(Term::Sms(Box::new(SmsSpec { value: "abcd".into(), name: "nvlong".into(), map: m, original_source: None, inner: None, remove: false })));
+  }
   // the same through a lazily announcing user source
   v.push(Term::Script(Box::new(ScriptSpec {
     pieces: vec![("a".into(), Some((0, 1, 0, Some(1)))), ("b".into(), Some((0, 1, 1, Some(0))))],
